@@ -63,6 +63,12 @@ class DescribeNumericAggregate(Blockwise):
     def _broadcast_dep(self, dep):
         return dep.npartitions == 1
 
+    def _divisions(self):
+        # One partition of statistics that is labelled by their names. The
+        # operands are scalars and single partition series of other labels
+        # (the quantiles have known divisions): there is nothing to co-align
+        return (None, None)
+
     @staticmethod
     def operation(name, is_timedelta_col, is_datetime_col, *stats):
         return describe_numeric_aggregate(
